@@ -245,6 +245,9 @@ func argTextD(v ssa.Value, d int, seen map[ssa.Value]bool) string {
 		if d >= 2 {
 			return name + "()"
 		}
+		if cn := core.CalleeName(&x.Call); cn == "fmt.Errorf" || cn == "errors.New" {
+			return name + "(…)" // message text is for people
+		}
 		var as []string
 		for _, a := range core.CallArgs(&x.Call) {
 			as = append(as, argTextD(a, d+2, seen))
@@ -334,8 +337,12 @@ func WiringRows(fn *ssa.Function, want func(callee string) bool) []string {
 					}
 				}
 				if std {
-					// pure helpers of the standard library: their operands decide conditions and keys
-				} else if strings.HasPrefix(full, "builtin:") || strings.Contains(full, "Logger") || !(cc.IsInvoke() && strings.Contains(cc.Value.Type().String(), core.Module) || strings.Contains(full, "/") && !strings.Contains(full, "k8s.io") && !strings.Contains(full, "sigs.k8s") && strings.Contains(core.CalleeName(cc), "converters/") || strings.Contains(core.CalleeName(cc), "haproxy/") || strings.Contains(core.CalleeName(cc), "haproxy.") || strings.Contains(core.CalleeName(cc), "acme.") || strings.Contains(core.CalleeName(cc), "controller/") || strings.Contains(core.CalleeName(cc), "common/") || strings.Contains(core.CalleeName(cc), "utils")) {
+					// pure helpers of the standard library: their operands decide conditions and keys —
+					// unless the result only ends up in a log line or an error message
+					if v, isVal := in.(ssa.Value); isVal && feedsOnlyMessages(v, map[ssa.Value]bool{}) {
+						continue
+					}
+				} else if strings.HasPrefix(full, "builtin:") || isLoggerName(full) || !(cc.IsInvoke() && strings.Contains(cc.Value.Type().String(), core.Module) || strings.Contains(full, "/") && !strings.Contains(full, "k8s.io") && !strings.Contains(full, "sigs.k8s") && strings.Contains(core.CalleeName(cc), "converters/") || strings.Contains(core.CalleeName(cc), "haproxy/") || strings.Contains(core.CalleeName(cc), "haproxy.") || strings.Contains(core.CalleeName(cc), "acme.") || strings.Contains(core.CalleeName(cc), "controller/") || strings.Contains(core.CalleeName(cc), "common/") || strings.Contains(core.CalleeName(cc), "utils")) {
 					continue
 				}
 			}
@@ -456,7 +463,7 @@ func init() {
 			}
 			seen[p] = true
 			prop := p
-			addRule(prop, &core.Rule{ID: prop + ".wiring", Floor: 3, Run: func(c *core.Ctx) { wiringRule(c, prop) },
+			addRule(prop, &core.Rule{ID: prop + ".wiring", Floor: 1, Late: true, Run: func(c *core.Ctx) { wiringRule(c, prop) },
 				Doc: "Wiring table: for every function of the converters, the multiset of calls across the API boundaries this property depends on (see rules/zz_wiring.go for the groups: model construction, cache reads, tracker links, acme storages, Gateway converter, weights, external authentication, snippet filter), each call rendered with its arguments as name-independent expressions (parameters by reviewed name, fields as paths, nested calls by callee, phis as the set of their inputs), equals the table generated from the reviewed tree (rules/wiring_gen.go). A wrong variable at such a call type-checks and keeps the tests green unless a test has two distinct values there."})
 		}
 	}
@@ -465,6 +472,8 @@ func init() {
 func wiringRule(c *core.Ctx, prop string) {
 	got := WiringAll(c.Env)
 	n := 0
+	// inherited from an upstream layer: limited to the functions this property's own rules anchor
+	home := strings.HasPrefix(c.RuleID(), prop+".")
 	for _, fnName := range sortedKeys(wiringTable) {
 		pk := fnName
 		// groups that apply to this property and this function
@@ -505,6 +514,9 @@ func wiringRule(c *core.Ctx, prop string) {
 		if len(w) == 0 {
 			continue
 		}
+		if !c.Anchored(fnName) {
+			continue
+		}
 		g, present := got[fnName]
 		if !present {
 			c.MissingAnchor("function " + fnName + " of the wiring table")
@@ -543,5 +555,93 @@ func wiringRule(c *core.Ctx, prop string) {
 		c.Check(len(missing) == 0 && len(extra) == 0, fnName+": calls across the boundary carry the reviewed arguments", site, fmt.Sprintf("%d calls", len(w)),
 			"the function no longer makes ["+clip(strings.Join(missing, " ; "), 600)+"] and now makes ["+clip(strings.Join(extra, " ; "), 600)+"]: a value handed across the boundary changed (wrong variable, dropped or added call)")
 	}
-	c.Check(n >= 3, "functions compared with the wiring table", "", fmt.Sprintf("%d functions", n), fmt.Sprintf("%d functions", n))
+	c.Check(n >= 1 || !home, "functions compared with the wiring table", "", fmt.Sprintf("%d functions", n), fmt.Sprintf("%d functions", n))
+}
+
+// feedsOnlyMessages: every use of v ends in a logger call, fmt.Errorf or errors.New (through interface
+// conversions, variadic arrays, concatenation and phis). Such a value is text for people.
+func feedsOnlyMessages(v ssa.Value, seen map[ssa.Value]bool) bool {
+	if seen[v] {
+		return true
+	}
+	seen[v] = true
+	refs := v.Referrers()
+	if refs == nil {
+		return false
+	}
+	n := 0
+	for _, r := range *refs {
+		switch x := r.(type) {
+		case *ssa.DebugRef:
+			continue
+		case *ssa.Call:
+			n++
+			cc := &x.Call
+			if cc.IsInvoke() {
+				t := cc.Value.Type().String()
+				if isLoggerName(t) {
+					continue
+				}
+				return false
+			}
+			cn := core.CalleeName(cc)
+			if cn == "fmt.Errorf" || cn == "errors.New" || isLoggerName(cn) || strings.HasPrefix(cn, "(github.com/go-logr") || strings.HasPrefix(cn, "k8s.io/klog") {
+				continue
+			}
+			return false
+		case *ssa.MakeInterface:
+			n++
+			if !feedsOnlyMessages(x, seen) {
+				return false
+			}
+		case *ssa.ChangeInterface:
+			n++
+			if !feedsOnlyMessages(x, seen) {
+				return false
+			}
+		case *ssa.Convert:
+			n++
+			if !feedsOnlyMessages(x, seen) {
+				return false
+			}
+		case *ssa.Slice:
+			n++
+			if !feedsOnlyMessages(x, seen) {
+				return false
+			}
+		case *ssa.Phi:
+			n++
+			if !feedsOnlyMessages(x, seen) {
+				return false
+			}
+		case *ssa.BinOp:
+			n++
+			if x.Op.String() != "+" || !feedsOnlyMessages(x, seen) {
+				return false
+			}
+		case *ssa.Store:
+			n++
+			// stored into the backing array of a variadic call
+			ia, ok := x.Addr.(*ssa.IndexAddr)
+			if !ok || x.Val != v {
+				return false
+			}
+			al, ok := ia.X.(*ssa.Alloc)
+			if !ok || !feedsOnlyMessages(al, seen) {
+				return false
+			}
+		case *ssa.IndexAddr:
+			n++
+			// the array itself: its element addresses are written (checked at the Store) — fine
+		default:
+			return false
+		}
+	}
+	return n > 0
+}
+
+// isLoggerName: a type or callee name of one of the logging facilities used in the repository.
+func isLoggerName(n string) bool {
+	l := strings.ToLower(n)
+	return strings.Contains(l, "logger") || strings.Contains(l, "logr.") || strings.Contains(l, "klog")
 }
